@@ -512,6 +512,11 @@ var (
 func c13TwinProgram(id string) (*Program, []string, [][2]string) {
 	p := &Program{ID: id, Module: ModulePath, Extra: map[string]string{}, Feat: map[string]string{"family": "twin-packages"}, RawDriver: true}
 	p.Pkgs = []*Pkg{{Name: "app", Dir: "app"}, {Name: "lib", Dir: "lib"}, {Name: "lib", Dir: "lib2"}, {Name: "region", Dir: "east/region"}, {Name: "region", Dir: "west/region"}}
+	// a second application package of the same invocation uses lib2 alone, so it names that
+	// library differently than package app does: nothing of app's output may show in its own
+	p.Pkgs = append(p.Pkgs, &Pkg{Name: "app2", Dir: "app2"})
+	p.Extra["5/wire.go"] = "//go:build wireinject\n// +build wireinject\n\npackage app2\n\nimport (\n\t\"github.com/google/wire\"\n\t\"" + p.ImportPath(2) + "\"\n)\n\nfunc SliceOfB() []int {\n\tpanic(wire.Build(lib.TwinSet6))\n}\n\nfunc MapOfB() map[string]string {\n\tpanic(wire.Build(lib.TwinSet10))\n}\n"
+	p.Extra["5/use.go"] = "package app2\n\n// Use keeps the injectors referenced under the default tags.\nfunc Use() int { return len(SliceOfB()) + len(MapOfB()) }\n"
 	// each twin imports ITS region package under the same (default) name
 	p.Extra["3/region.go"] = "package region\n\nvar Name = \"east\"\n\nvar Rate = 3\n"
 	p.Extra["4/region.go"] = "package region\n\nvar Name = \"west\"\n\nvar Rate = 50\n"
